@@ -282,3 +282,24 @@ for _pid in ("C11", "C13", "C14", "C15"):
     PROPS[_pid]["needs_gen"] = sorted(set(list(PROPS[_pid].get("needs_gen", DEFAULT_NEEDS_GEN)) + ["formulas"]))
     if FORMULA_NOTE not in PROPS[_pid].get("trusted_extra", []):
         PROPS[_pid]["trusted_extra"] = list(PROPS[_pid].get("trusted_extra", [])) + [FORMULA_NOTE]
+
+# C11(b) / C19: the provenance checkers' soundness is a Lean theorem against the executable semantics (EdVerif/Ssa/ProvSound)
+PROV_TEXT = ("Generic Lean theorems, proved once against the small-step SSA semantics (EdVerif/Ssa/ProvSound, ~3100 lines): for ANY program whose simple verdicts "
+             "provOkSimple / writesOkSimple / returnsOkSimple are true, (writes_sound) at every point of the execution of an exported function - any fuel, normal return or "
+             "panic, any aliasing of well-shaped arguments - every pre-existing block of memory other than the targets of the parameters the policy allows (the receiver; u for "
+             "Swap) and package-level variables keeps its content, and (fresh_returns_sound) every pointer/slice returned by a function the policy lists as fresh points into "
+             "memory allocated during the call. Regenerated, re-proved on every run by kernel evaluation over the SSA of /repo's working tree: the three verdicts hold "
+             "(Props/Structural/ProvSound.lean: C11_arguments_never_modified, C19_results_fresh). The SSA semantics is validated on every run by executing the regenerated SSA "
+             "(ssarun) against the real code. ")
+PROPS["C11"]["level"] = "proof"
+PROPS["C11"]["modules"] = PROPS["C11"]["modules"] + ["EdVerif.Props.Structural.ProvSound"]
+PROPS["C11"]["text"] = (PROV_TEXT + "Also: rfl ties of the regenerated straight-line functions to the model for every aliasing pattern of their pointer parameters (T5), "
+                        "alias-insensitivity of the regenerated kernels' load/store order, and the executed correspondence under every partition of {receiver, arguments} with "
+                        "before/after snapshots of all non-receiver arguments, byte slices (incl. spare capacity) and slice elements.")
+PROPS["C11"]["technique"] = "Lean 4 soundness theorem of a pointer-provenance checker for an SSA semantics + kernel-evaluated verdicts on regenerated SSA + rfl ties per aliasing pattern + correspondence over alias partitions"
+PROPS["C19"]["level"] = "proof"
+PROPS["C19"]["modules"] = PROPS["C19"]["modules"] + ["EdVerif.Props.Structural.ProvSound"]
+PROPS["C19"]["text"] = (PROV_TEXT + "Together with the Lean-checked fact that no function outside init / the two Once closures stores to a package-level variable (Structural.Globals), "
+                        "results depend only on argument values. Proved at the level of the SSA model; what is not a theorem: that mutating a returned value cannot influence later "
+                        "calls is the conjunction of freshness and no-hidden-state, observed additionally by the mutate-and-recall correspondence.")
+PROPS["C19"]["technique"] = "Lean 4 soundness theorem of a pointer-provenance checker (fresh results) + kernel-evaluated verdicts on regenerated SSA + mutate-and-recall correspondence"
